@@ -542,7 +542,11 @@ Definition begin_all (st : state) (l : list nat) : state :=
 Definition do_action (st : state) (a : action) : list state :=
   match a with
   | AActs l => settle (begin_all st l)
-  | ALeave s => match step st (LLeave s) with Some st' => settle st' | None => [st] end
+  | ALeave s =>
+    match nth_error (ss st) s with
+    | Some SErr | Some SDropped => [sets st s SGone]   (* holds no connection: only the process ends *)
+    | _ => match step st (LLeave s) with Some st' => settle st' | None => [st] end
+    end
   | ACrashPeer s =>
     match nth_error (ss st) s with
     | Some (SConn d) => match step st (LCrash d) with Some st' => settle st' | None => [st] end
